@@ -61,10 +61,10 @@ Definition mkxs (cs : list spec_float) (ws : list Z) : list (keyed spec_float) :
 Definition zs (l : list Z) : list spec_float := map (fun z => f32_of_Z z) l.
 Definition tol005 : spec_float := f64_of_bits 4587366580439587226%N.   (* 0.05 *)
 
-Definition v_pinned : variant := mkvariant true false false false.       (* before 40af1ed *)
-Definition v_dist : variant := mkvariant false false false false.        (* 40af1ed .. before 241da30 *)
-Definition v_noprobe : variant := mkvariant false true false false.      (* 241da30, before a287019 *)
-Definition v_unsafe_mid : variant := mkvariant false true true false.    (* a287019, before 6449881 *)
+Definition v_pinned : variant := mkvariant true false false false false.       (* before 40af1ed *)
+Definition v_dist : variant := mkvariant false false false false false.        (* 40af1ed .. before 241da30 *)
+Definition v_noprobe : variant := mkvariant false true false false false.      (* 241da30, before a287019 *)
+Definition v_unsafe_mid : variant := mkvariant false true true false false.    (* a287019, before 6449881 *)
 
 (* 1. `count_left == prev_count_left`: 0,16,..,20 stops at 1 | 5 although 3 | 3 exists *)
 Lemma rcb_c04_refuted_1 : refuted v_pinned.
@@ -126,3 +126,78 @@ Example head_repairs_all :
       (mkxs [huge 20; huge 23; huge 26; huge 29; huge 32] [1;1;1;1;1], huge 20, huge 32) ]
   = [Some true; Some true; Some true; Some true; Some true; Some true].
 Proof. vm_compute. reflexivity. Qed.
+
+(* ---------- beyond the binary32 range (code at HEAD) ----------
+   A finite f64 coordinate above f32::MAX becomes +inf (below -f32::MAX: -inf)
+   by `as f32`.  The points that share the image +inf form one group of equal
+   binary32 coordinate like any other (flt is a strict weak order on all
+   non-NaN values), so balanced_or_bracket keeps its meaning.  It is FALSE of
+   the search at HEAD on such inputs: the box bound is infinite, `min/2 + max/2`
+   is +-inf or NaN, the interval counts as exhausted at once and the only
+   probe is made at max; a point at +inf can never be the pivot (the fold
+   starts from nearest_coord = +inf with a strict `<`). *)
+Definition pre_nonnan (xs : list (keyed spec_float)) (mn mx : spec_float) : bool :=
+  f32v mn && f32v mx
+  && forallb (fun q => f32v (fst q) && (0 <=? snd q) && negb (flt (fst q) mn) && negb (flt mx (fst q))) (awl xs).
+
+Definition refuted_nonnan (v : variant) : Prop :=
+  exists fuel tol xs mn mx sr, pre_nonnan xs mn mx = true /\ search_v v fuel tol xs mn mx = Ok sr /\ ~ sides_balanced tol xs sr.
+
+Lemma split_check_refutes_nonnan v fuel tol xs mn mx :
+  pre_nonnan xs mn mx = true -> split_check v fuel tol xs mn mx = Some false -> refuted_nonnan v.
+Proof.
+  intros Hpre H. exists fuel, tol, xs, mn, mx. unfold split_check in H. fold (awl xs) in H. fold (search_v v fuel tol xs mn mx) in H.
+  assert (Hv : vaw spec_float f32v (awl xs)).
+  { unfold pre_nonnan in Hpre. apply andb_true_iff in Hpre. destruct Hpre as [_ Hp]. apply vawb_sound. unfold vawb.
+    rewrite forallb_forall in *. intros q Hq. specialize (Hp q Hq).
+    apply andb_true_iff in Hp. destruct Hp as [Hp _]. apply andb_true_iff in Hp. destruct Hp as [Hp _]. exact Hp. }
+  destruct (search_v v fuel tol xs mn mx) as [[i wl pos why|pos]|e|s|]; try discriminate.
+  - destruct (nth_opt xs i) as [p|] eqn:Ep; [|discriminate]. inversion H as [Hc]. clear H.
+    eexists. split; [exact Hpre|]. split; [reflexivity|]. intros (p' & Hp' & Hb). rewrite Ep in Hp'. inversion Hp'; subst p'.
+    apply (check_split32_iff tol) in Hb; [congruence| |]; apply (vaw_filter spec_float f32v); exact Hv.
+  - inversion H as [Hc]. clear H. eexists. split; [exact Hpre|]. split; [reflexivity|]. intros Hb.
+    apply (check_split32_iff tol) in Hb; [congruence|exact Hv|constructor].
+Qed.
+
+Definition f32_pinf : spec_float := S754_infinity false.
+Definition f32_ninf : spec_float := S754_infinity true.
+
+(* x = 0,1,2,3 and one image +inf (e.g. 1e39), unit weights: everything on the low side (5 | 0) *)
+Lemma rcb_c04_refuted_beyond_f32_plus : refuted_nonnan head_variant.
+Proof.
+  apply (split_check_refutes_nonnan head_variant 400 tol005
+           (mkxs (zs [0;1;2;3] ++ [f32_pinf]) [1;1;1;1;1]) (f32_of_Z 0) f32_pinf); vm_compute; reflexivity.
+Qed.
+
+(* one image -inf (e.g. -1e39) and x = 0,1,2,3: cut 4 | 1 although 2 | 3 exists *)
+Lemma rcb_c04_refuted_beyond_f32_minus : refuted_nonnan head_variant.
+Proof.
+  apply (split_check_refutes_nonnan head_variant 400 tol005
+           (mkxs (f32_ninf :: zs [0;1;2;3]) [1;1;1;1;1]) f32_ninf (f32_of_Z 3)); vm_compute; reflexivity.
+Qed.
+
+(* the whole algorithm on the f64 input (x, 0) with the PLAIN cast (before the
+   clamp fix): x = 0,1,2,3,1e39 ends in one part, x = -1e39,0,1,2,3 is cut 4 | 1;
+   with the clamped cast (current source) both are cut 3 | 2 *)
+Definition pts_x (xs : list Z) : list (list spec_float) := map (fun x => [f64_of_Z x; f64_of_Z 0]) xs.
+Example rcb_beyond_f32_one_part :
+  rcb (head_variant_c false) 400 seq_sched 2 1 tol005 (pts_x [0; 1; 2; 3; 10 ^ 39]) [1;1;1;1;1] [9;9;9;9;9]%N
+  = Ok [0;0;0;0;0]%N.
+Proof. vm_compute. reflexivity. Qed.
+Example rcb_beyond_f32_lopsided :
+  rcb (head_variant_c false) 400 seq_sched 2 1 tol005 (pts_x [- 10 ^ 39; 0; 1; 2; 3]) [1;1;1;1;1] [9;9;9;9;9]%N
+  = Ok [0;0;0;0;1]%N.
+Proof. vm_compute. reflexivity. Qed.
+Example rcb_beyond_f32_clamped :
+  rcb head_variant 400 seq_sched 2 1 tol005 (pts_x [0; 1; 2; 3; 10 ^ 39]) [1;1;1;1;1] [9;9;9;9;9]%N = Ok [0;0;0;1;1]%N
+  /\ rcb head_variant 400 seq_sched 2 1 tol005 (pts_x [- 10 ^ 39; 0; 1; 2; 3]) [1;1;1;1;1] [9;9;9;9;9]%N = Ok [0;0;0;1;1]%N
+  /\ rcb head_variant 400 seq_sched 2 1 tol005 (pts_x [- 10 ^ 39; 0; 1; 2; 3; 10 ^ 39]) [1;1;1;1;1;1] [9;9;9;9;9;9]%N
+     = Ok [0;0;0;1;1;1]%N.
+Proof. repeat split; vm_compute; reflexivity. Qed.
+(* the plain-cast outputs are rejected, the clamped ones accepted, by the
+   certified C04 checker (which judges the clamped binary32 images) *)
+Example checker_beyond_f32 :
+  check_balance32 2 1 tol005 (pts_x [0; 1; 2; 3; 10 ^ 39]) [1;1;1;1;1] [0;0;0;0;0]%N = false
+  /\ check_balance32 2 1 tol005 (pts_x [- 10 ^ 39; 0; 1; 2; 3]) [1;1;1;1;1] [0;0;0;0;1]%N = false
+  /\ check_balance32 2 1 tol005 (pts_x [0; 1; 2; 3; 10 ^ 39]) [1;1;1;1;1] [0;0;0;1;1]%N = true.
+Proof. repeat split; vm_compute; reflexivity. Qed.
